@@ -69,7 +69,7 @@ func (v IVal) Go(wrap *orderLog) any {
 }
 
 var absentStrings = []string{"", " ", "\t\n", "  \r ", "\u00a0", "\u0085", "\u3000\u2003", "\u1680\u205f ", "\u2028\u2029\u202f"}
-var nearAbsentStrings = []string{"\u200b", " a ", "0", "\xc2", "\xe2\x80", "\u180e"} // present: these are not spaces; truncated sequences are not spaces
+var nearAbsentStrings = []string{"\u200b", " a ", "0", "\xc2", "\xe2\x80", "\u180e", "\x00", "\x1b", "\x1f\x1e", " \x01\t", "\x7f", "\ufeff", "\x08 "} // present: these are not spaces (control characters, zero-width characters); truncated sequences are not spaces
 
 func strV(s string) IVal   { return IVal{Kind: "str", S: s} }
 func intV(i int64) IVal    { return IVal{Kind: "int", I: i} }
@@ -339,6 +339,9 @@ func (g *Gen) destRaw(n *Node, t reflect.Type, populated bool) reflect.Value {
 	case KString, KCustom, KPre:
 		if !zero {
 			s := Pick(r, sampleStrings)
+			if r.P(8) {
+				s = Pick(r, nearAbsentStrings) // not blank: control characters, zero-width characters, truncated sequences
+			}
 			if populated && (s == "" || isBlank(s)) {
 				s = "abc"
 			}
